@@ -7,6 +7,7 @@ CONSTANTS
   FixRecoverStale = TRUE
   FixShortHdr = TRUE
   FixTailOrder = TRUE
+  FreshTmp = TRUE
   KnownRebase = TRUE
   KeepIndex = TRUE
 INVARIANTS CrashM1
